@@ -267,8 +267,9 @@ def loops(body, m=None):
             elif ch in ')]':
                 depth -= 1
             elif ch == '{' and depth == 0:
-                # for `while { cond-block } { body }` the first block is the condition
-                if mo.group(1) == 'while' and m[mo.end():k].strip() == '':
+                # for `while { cond-block } { body }` and `while let PAT = { block } { body }` the first block is
+                # the condition / the scrutinee
+                if mo.group(1) == 'while' and (m[mo.end():k].strip() == '' or m[mo.end():k].rstrip().endswith('=')):
                     k = match_close(m, k) + 1
                     continue
                 break
